@@ -24,7 +24,7 @@ def run(ctx):
         'at every unit walk of the package (sibling agreement, E-i); absolute DIE offset = debug_info_offset + die_ofs; '
         'insertion order preserved (no sort / plain dict); bisect discipline of cu_offset_at_addr, get_CU_containing and '
         '_cached_CU_at_offset incl. empty-table guard (J-BISECT); hit conditions (E-iii); H-CUR.')
-    ctx.assumptions += ['the first-tuple padding uses float ceil: value arithmetic, not decided', 'overlapping ranges are outside the claim']
+    ctx.assumptions += ['the first-tuple padding uses float ceil: its value arithmetic is not decided, its base (the set start) is', 'overlapping ranges are outside the claim']
     for r, d in (('L-CONF', 'set header layouts'), ('E-i', 'walk and offset formulas'), ('SIB', 'unit-extent formula agrees across the package'),
                  ('J-BISECT', 'bisect lookups are guarded and paired with the right probe index'), ('E-iii', 'hit conditions'),
                  ('W-LUT', 'name table construction'), ('H-CUR', 'cursor discipline'),
@@ -82,6 +82,16 @@ def check_aranges(ctx, w):
            [o[2] for o in ops[1:]] == ["addr_size('addr')", "addr_size('length')", "addr_size('addr')", "addr_size('length')"], got=[o[2] for o in ops[1:]])
     ctx.ob('E-i', f.construct, 'width from the set header', tr.get('addr_size') == [('=', '_get_addr_size_struct(self,address_size)')], got=tr.get('addr_size'))
     ctx.ob('E-i', f.construct, 'tuple size = 2 * address_size', tr.get('tuple_size') == [('=', expr.spec_nf('address_size * 2'))], got=tr.get('tuple_size'))
+    # DWARF 5 section 6.1.2 (and binutils display_debug_aranges, LLVM DWARFDebugArangeSet): the first tuple of a set begins at an offset *in the
+    # set* that is a multiple of the tuple size.  Section-relative and set-relative padding differ as soon as a set starts at an offset that
+    # is not a multiple of its own tuple size (a set of 4-byte addresses followed by one of 8-byte addresses).
+    fp = tr.get('fp')
+    rel = [('=', expr.spec_nf('tell(stream) - offset'))]
+    seeks = [o.t() for o in streams.func_ops(f.node, env) if o.kind == 'seek']
+    back = [o for o in seeks if len(o) > 2 and 'seek_to' in str(o[2]) and 'offset' in str(o[2])]
+    ctx.ob('E-i', f.construct, 'first tuple padded relative to the start of its set', fp == rel and bool(back), got=(fp, seeks[-1:] if seeks else None), expected=rel,
+           msg='the padding in front of the first tuple is computed from the position in the section, not in the set: a set that starts at an offset '
+               'which is not a multiple of its tuple size is read from the wrong place')
     whiles = sorted([n for n in ast.walk(f.node) if isinstance(n, ast.While)], key=lambda n: n.lineno)
     ctx.ob('E-i', f.construct, 'sets until the section size', bool(whiles) and expr.cond_str(whiles[0].test, env) == expr.spec_cond('offset < size'))
     ctx.ob('E-i', f.construct, 'tuples until (0,0)', len(whiles) == 2 and expr.cond_str(whiles[1].test, env) ==
@@ -269,6 +279,8 @@ def check_bisect(ctx, w):
 
 
 MUTANTS = [
+    ('aranges-pad-section-relative', 'dwarf/aranges.py', "fp = self.stream.tell() - offset", "fp = self.stream.tell()", 'E-i'),
+    ('aranges-pad-no-rebase', 'dwarf/aranges.py', "self.stream.seek(offset + seek_to)", "self.stream.seek(seek_to)", 'E-i'),
     ('aranges-pad-container-size', 'dwarf/aranges.py', 'tuple_size = aranges_header["address_size"] * 2', 'tuple_size = self.structs.address_size * 2', 'G-OWNER'),
     ('aranges-offset-width', 'dwarf/structs.py', "            self.Dwarf_offset('debug_info_offset'), # a little tbd", "            self.Dwarf_uint32('debug_info_offset'), # a little tbd", 'L-CONF'),
     ('namelut-length', 'dwarf/structs.py', "self.Dwarf_length('debug_info_length')", "self.Dwarf_uint32('debug_info_length')", 'L-CONF'),
